@@ -168,6 +168,24 @@ def request(ev):
     cfg = f"{int(bool(ev['supports_distinct_on']))}|{int(bool(ev['except_all']))}|{int(bool(ev['intersect_all']))}|{cids(ev['wildcards'])}"
     p = pipe(ev["input"], inst, it)
     out = ev.get("output")
+    if stage == "prune_inputs":
+        before = ev.get("instances_before")
+        reads = ev.get("reads")
+        if before is None or reads is None or len(reads) != len(ev["input"]):
+            raise Shape("the trace does not record the instances before the stage / what each transform reads")
+        infos = ";".join("n" if r is None else f"s:{cids(r)}:-" for r in reads)
+        line = f"pprune\t{pipe(ev['input'], before, it)}\t{infos}"
+        if out is None:
+            return line, "err"
+        if [json.dumps(strip_span(x), sort_keys=True) for x in out] != [json.dumps(strip_span(x), sort_keys=True) for x in ev["input"]]:
+            raise Shape("prune_inputs changed the transforms themselves")
+        after = []
+        for t in out:
+            if isinstance(t, dict) and "From" in t:
+                after.append(cids(inst[str(t["From"])]["cids"]))
+            elif isinstance(t, dict) and "Join" in t:
+                after.append(cids(inst[str(t["Join"]["with"])]["cids"]))
+        return line, "ok " + "/".join(after)
     if stage == "distinct":
         nxt = first_generated(ev["input"], out)
         reads = ev.get("reads")
@@ -218,6 +236,9 @@ def what_happened(stage, line, exp):
     if exp == "err":
         return "error"
     a = exp.split(" ", 2 if stage == "distinct" else 1)[-1]
+    if stage == "prune_inputs":
+        before = "/".join(x.split("|")[-1] if x.startswith("from|") else x.split("|")[2] for x in line.split("\t")[1].split(";") if x.startswith(("from|", "join|")))
+        return "unchanged" if exp == "ok " + before else "pruned"
     inp = line.split("\t")[3 if stage == "distinct" else -1]
     if a == inp:
         return "unchanged"
